@@ -59,9 +59,9 @@ CLAIMED["C05"] = {
 }
 CLAIMED["C06"] = {
     "category": "exploration",
-    "text": "History/state clauses of C06 only: spends of all eight signable output types are built and signed through the library's helpers inside generated histories of sign / verify / edit / revert / clone / re-parse. verify_input must be True exactly when the input still carries its signature and the current reference digest equals the signed one, stable under repetition and on a re-parsed copy (H3); every fresh spend verifies and its signatures verify under an independent ECDSA/BIP340 verifier over the reference digest (H4).",
+    "text": "Spends of all eight signable output types are built and signed through the library's helpers inside generated histories of sign / verify / edit / revert / clone / re-parse. verify_input must be True exactly when the input still carries its signature and the current reference digest equals the signed one, stable under repetition and on a re-parsed copy (H3); every fresh spend verifies and its signatures verify under an independent ECDSA/BIP340 verifier over the reference digest (H4).",
     "design_ref": "DESIGN.md 5.3, 6 (C06)",
-    "note": "Trusted: ref/secp.py, ref/sighash.py. NOT covered: the property's forgery catalogue (crafted scriptSigs, foreign keys, dropped/reordered signatures, annex-only witnesses...) is pure input mutation without history or fault and is not simulated; quorums are limited to n <= 3 keys for speed.",
+    "note": "Trusted: ref/secp.py, ref/sighash.py, ref/stdverify.py (standard templates only, not an interpreter). The property's forgery catalogue is applied as in-flight tampering of a signed transaction between signer and verifier (T1: receiver says valid => reference finds the spend authorised), enumerated per output type in the quick tier; malformed-encoding-only changes that leave the authorisation intact are not demanded to fail. Quorums are limited to n <= 3 keys for speed.",
     "technique": "deterministic simulation of sign/edit/verify histories on one object; verdict oracle from a reference digest model",
 }
 
@@ -71,6 +71,14 @@ CLAIMED["C04"] = {
     "design_ref": "DESIGN.md 5.2, 6 (C04)",
     "note": "Trusted: ref/txmodel.py. Only the fetcher clause and txid definition are decided by simulation; the for-all-encodings round-trip clauses are sampled through the served transactions (push lengths 0..520 incl. 75/76/255/256, counts up to 300, witness items up to 70000 bytes), not enumerated. The cache file is trusted by design (no bit-rot), torn writes are injected.",
     "technique": "deterministic simulation of client/explorer/disk with response and disk fault injection; ground-truth oracle from the stub's chain database",
+}
+
+CLAIMED["C13"] = {
+    "category": "exploration",
+    "text": "Two-round MuSig among 2-5 simulated participants and an aggregator, each building its own MuSigTapScript from the keys in its own arrival order, nonces from a seeded or boundary-valued RNG behind buidl.taproot.randbelow, 1-2 sessions on the same objects (plain and taproot-tweaked), with duplicate / dropped / bit-flipped / stale partial signatures, nonces corrupted towards a subset and participant crash-restart between rounds: all parties agree on the aggregate key (U1), a returned signature verifies under an independent BIP340 verifier (U2), get_signature returns exactly when one consistent partial signature per participant arrived (U3), honest sessions succeed (U4); k-of-n trees: leaf count C(n,k), each k-subset owns exactly one leaf and a spend of it by that subset verifies in the library and under a reference script-path check (U5).",
+    "design_ref": "DESIGN.md 5.5, 6 (C13)",
+    "note": "Trusted: ref/secp.py, ref/sighash.py. The aggregate key is the library's own definition (not compared with BIP327). One open known finding (nonce sums at the point at infinity). pecc is slow (45 ms per scalar multiplication): ~30 k runs/hour.",
+    "technique": "deterministic simulation of a multi-party signing protocol with message-fault injection and RNG seam; independent BIP340 verification",
 }
 
 PENDING = {}
